@@ -222,11 +222,14 @@ class History(object):
     def stats(self, tid):
         import logging
         logging.disable(logging.CRITICAL)
+        ok = True
         try:
             self.trees[tid - 1].generate_stats()
+        except Exception:       # noqa  judged by the specification (a failure is only explained by an unspecified zone)
+            ok = False
         finally:
             logging.disable(logging.NOTSET)
-        return self._emit({'k': 'stats', 'tid': tid})
+        return self._emit({'k': 'stats', 'tid': tid, 'ok': ok})
 
     def opt(self, tid, ci, fi, sec, key, value=None, delete=False):
         c = self.container(tid, ci, fi)
